@@ -785,8 +785,7 @@ caf_write_tailer (SF_PRIVATE *psf)
 	else
 		psf->dataend = psf_fseek (psf, 0, SEEK_END) ;
 
-	if (psf->dataend & 1)
-		psf_binheader_writef (psf, "z", BHWz (1)) ;
+	/* CAF chunks are not padded to an even length : the next chunk starts right behind the audio data. */
 
 	if (psf->strings.flags & SF_STR_LOCATE_END)
 		caf_write_strings (psf, SF_STR_LOCATE_END) ;
